@@ -41,6 +41,10 @@ impl KeGroup for Curve25519 {
             .ok()
             .map(MontgomeryPoint)
             .filter(|pk| pk != &MontgomeryPoint::identity())
+            // Reject the points of small order (on the curve and on its twist): for
+            // these, every Diffie-Hellman output is all-zero regardless of the secret
+            // key.
+            .filter(|pk| pk * Scalar::from(8u8) != MontgomeryPoint::identity())
             .ok_or(InternalError::PointError)
     }
 
